@@ -28,7 +28,7 @@ CLAIMED.update({
 
 CLAIMED.update({
     "C09": dict(
-        text="Deductive proof (Verus) that the real body of compile_quoted_string_ex returns decode(s) for every input string, decode being written from the property's escape table (\\n \\r \\t \\a \\b \\f \\v \\0, any other escaped character stands for itself, a lone trailing backslash is dropped); the literal window of cpp::process (R8) numbers the markers with the same counter that indexes the literal table, in skipped text as well; parse_expr / parse_expr_init_value advance the counter that names the literal tables (`cctmp<N>`) by the number of literals they created.",
+        text="Deductive proof (Verus) that the real body of compile_quoted_string_ex returns decode(s) for every input string, decode being written from the property's escape table (\\n \\r \\t \\a \\b \\f \\v \\0, any other escaped character stands for itself, a lone trailing backslash is dropped); the literal window of cpp::process (R8) numbers the markers with the same counter that indexes the literal table, in skipped text as well; parse_expr / parse_expr_init_value advance the counter that names the literal tables (`cctmp<N>`) by the number of literals they created. U-litnum: inside one expression the literals of a parenthesised sub-expression or of call arguments are numbered from the running counter on, the counter moves past them, and no entry of the literal table is overwritten.",
         note="Partial: recognition of the literal's extent by the scanner of cpp::process (before comment/macro processing), NUL termination/concatenation (compile_quoted_string, pest Pairs) and literal sizes are not under contract. vstd prophetic iterator spec of str::chars; char::from_u32 assumed specification; termination unproved.",
         technique="contract-based deductive verification (Verus loop invariant over the prophetic Chars iterator, function extracted mechanically from /repo)",
         design="DESIGN.md section 5, C09"),
@@ -44,7 +44,7 @@ CLAIMED.update({
 
 CLAIMED.update({
     "C10": dict(
-        text="Kani (CBMC, bit-precise, full i32 domain, loop-free: complete) on the real bodies of the constant calculator's operator closures: every binary/unary operator returns the C value wherever C defines it in 32-bit int and an error (no panic, no wrapped value) elsewhere, failed operands propagate, division by zero is located at the operator; the three operator tables handed to the Pratt parser are run verbatim against a recording shim and compared with the ISO C precedence/associativity table; the generator's own folding of immediates (generate_arithm, generate_shift, neg/not/bnot arms) returns the same C values and an error (never a panic) for the undefined cases. Counterexamples are lifted to constant initialisers and replayed on the real compiler.",
+        text="Kani (CBMC, bit-precise, full i32 domain, loop-free: complete) on the real bodies of the constant calculator's operator closures: every binary/unary operator returns the C value wherever C defines it in 32-bit int and an error (no panic, no wrapped value) elsewhere, failed operands propagate, division by zero is located at the operator; the three operator tables handed to the Pratt parser are run verbatim against a recording shim and compared with the ISO C precedence/associativity table; the generator's own folding of immediates (generate_arithm, generate_shift, neg/not/bnot arms) returns the same C values and an error (never a panic) for the undefined cases. Counterexamples are lifted to constant initialisers and replayed on the real compiler. The generator's folding of a constant condition (`256 ? 2 : 3`, `!!512`, `0x100 && 1`) is under contract in U-condtail / U-condval / U-gencond: the folded truth value is `v != 0` of the whole constant.",
         note="pest PrattParser semantics assumed (A-pratt); oracle = C semantics written as i64 arithmetic / C99 division definition in the harness; parse_sizeof is verified (Verus) against pest shims: element count times element size for arrays, 2 for pointers and shorts, 1 for chars; parse_int is verified (Verus) against the assumed contracts of str::parse::<i32> / i32::from_str_radix: decimal, hexadecimal, octal and character literals have their C value and a literal that does not fit is an error, never a panic; ternary sentinel collision is a recorded known finding.",
         technique="contract-style full-domain model checking of extracted loop-free code (Kani harness per operator obligation) + verbatim table extraction; Verus on parse_sizeof and parse_int",
         design="DESIGN.md section 5, C10"),
@@ -52,7 +52,7 @@ CLAIMED.update({
 
 CLAIMED.update({
     "C05": dict(
-        text="Deductive proof (Verus): (1) sorted_variables / sorted_functions return a duplicate-free listing of every table entry in ascending rank (comparator closure lifted and verified); (2) lemma: two listings of the same table with pairwise distinct ranks are equal, i.e. the published order cannot depend on hash iteration order; (3) every insertion statement of the variable/function tables in compile.rs (key and rank expressions extracted verbatim) preserves 'ranks unique and below the table size', using the verified contract of variable_order/function_order; (4) the two literal drains iterate a sorted, hence unique, sequence of the literal map.",
+        text="Deductive proof (Verus): (1) sorted_variables / sorted_functions return a duplicate-free listing of every table entry in ascending rank (comparator closure lifted and verified); (2) lemma: two listings of the same table with pairwise distinct ranks are equal, i.e. the published order cannot depend on hash iteration order; (3) every insertion statement of the variable/function tables in compile.rs (key and rank expressions extracted verbatim) preserves 'ranks unique and below the table size', using the verified contract of variable_order/function_order; (4) the two literal drains iterate a sorted, hence unique, sequence of the literal map. (5) a rank taken into a local before the insertion is followed back to its assignment: nothing that can add a table entry is called in between (scan, with the set of inserting functions computed as a fixpoint).",
         note="Assumed library contracts: Iterator::collect over HashMap::iter (each entry once, any order), slice sort/sort_by (permutation, ordered by a total order), String as hash key. Struct fields other than `order` are dropped by the extraction; a textual scan checks that no other statement writes `.order` or inserts into the tables. Hidden state (statics, environment), diagnostics text and 'regardless of what was compiled before' are not under contract.",
         technique="contract-based deductive verification (Verus: function contracts, table invariant at every insertion site, uniqueness lemmas by induction)",
         design="DESIGN.md section 5, C05"),
@@ -60,7 +60,7 @@ CLAIMED.update({
 
 CLAIMED.update({
     "C06": dict(
-        text="Deductive proof (Verus) on the real offset-to-line loops of syntax_error / compiler_error / warning (line index = number of newlines before the character that starts at the byte offset, for every UTF-8 text and every offset including 0 and end of text), on the index expressions used to read the line table, and on the parse-error arm of compile() (file and line come from the line-table entry of the line pest reports; no index panic, also for an empty table).",
+        text="Deductive proof (Verus) on the real offset-to-line loops of syntax_error / compiler_error / warning (line index = number of newlines before the character that starts at the byte offset, for every UTF-8 text and every offset including 0 and end of text), on the index expressions used to read the line table, and on the parse-error arm of compile() (file and line come from the line-table entry of the line pest reports; no index panic, also for an empty table). The head of the reader loop (U-splice): `line` counts every physical line read, through splices of any number of lines and whatever the lines contain; nothing else in process() assigns it.",
         note="The three places of cpp::process that write to the output are under contract (U-linemap): each pushes exactly as many line-table entries as it writes newlines. Partial: the reader loop of cpp::process (comments, splices, skipped regions) is not under contract (string scanning without library specifications). The offset-to-line loops are verified for arbitrary UTF-8 text (offsets are byte offsets; vstd's specification of char::len_utf8), no ASCII assumption is left. pest line numbers are 1-based (A-pest-lines).",
         technique="contract-based deductive verification (Verus loop invariant on the code blocks extracted mechanically from /repo)",
         design="DESIGN.md section 5, C06"),
@@ -76,8 +76,8 @@ CLAIMED.update({
 
 CLAIMED.update({
     "C02": dict(
-        text="Deductive proof (Verus) on the two decision blocks of AssemblyCode::optimize, cut verbatim by their anchor comments: (A) the adjacent-pair rules mark an instruction for removal only when it is unprotected and the pair is one of the eliminations that are invisible by 6502 semantics (same-operand store/load, inverse transfers, dead first load, ORA #0, PLA/PHA, compare of two known-equal/different immediates), and swap only LDA with CLC/SEC; (B) the register-knowledge transfer is sound against the ISA write sets: a written register is afterwards unknown or holds exactly what the instruction put there, index changes invalidate `v,X`/`v,Y` knowledge, a written memory cell is no longer believed to sit in another register, the belief 'N/Z describe A' is held only when true, a reload is dropped only when unprotected and provably redundant; what is known after a JMP is forgotten (it would otherwise reach a join point through the JMP-to-next-label rule). BOUNDED stand-in (labelled, never counted as proved): the simulation corpus compiled at -O1 must compute what it computes at -O0. A store forgets every memory-derived belief (no no-alias assumption for STA/STX/STY). The compare-folding rule is sound in context only if the folded BEQ/BNE is the last reader of the compare: generate_branch_instruction is proved (Kani, all operators, signed and unsigned) to leave no branch after an unprotected BEQ/BNE. U-frame: the arm of optimize() that restarts the scan at a label -- forgetting the registers -- is also taken at an inline assembly line (required-pattern scan; bounded group opt-across-inline-asm runs it).",
-        note="Partial: whole-program equivalence of -O1 and -O0 is not decided: the iterator/Dummy plumbing, the multipeek look-ahead (modelled as arbitrary lines), the JMP-to-next-label rule, the knowledge resets at labels, and whether a removed flag-setting load is invisible in context are outside the two blocks. ISA write sets and the list of sound eliminations are the oracle (A-isa). A-noalias, A-immtext. -O2/-O3 are identical to -O1 in this library.",
+        text="Deductive proof (Verus) on the two decision blocks of AssemblyCode::optimize, cut verbatim by their anchor comments: (A) the adjacent-pair rules mark an instruction for removal only when it is unprotected and the pair is one of the eliminations that are invisible by 6502 semantics (same-operand store/load, inverse transfers, dead first load, ORA #0, PLA/PHA, compare of two known-equal/different immediates), and swap only LDA with CLC/SEC; (B) the register-knowledge transfer is sound against the ISA write sets: a written register is afterwards unknown or holds exactly what the instruction put there, index changes invalidate `v,X`/`v,Y` knowledge, a written memory cell is no longer believed to sit in another register, the belief 'N/Z describe A' is held only when true, a reload is dropped only when unprotected and provably redundant; what is known after a JMP is forgotten (it would otherwise reach a join point through the JMP-to-next-label rule). BOUNDED stand-in (labelled, never counted as proved): the simulation corpus compiled at -O1 must compute what it computes at -O0. A store forgets every memory-derived belief (no no-alias assumption for STA/STX/STY). The compare-folding rule is sound in context only if the folded BEQ/BNE is the last reader of the compare: generate_branch_instruction is proved (Kani, all operators, signed and unsigned) to leave no branch after an unprotected BEQ/BNE. U-frame: the arm of optimize() that restarts the scan at a label -- forgetting the registers -- is also taken at an inline assembly line (required-pattern scan; bounded group opt-across-inline-asm runs it). U-optloop (inductive invariants on the loops of block D and of the head): the two instructions handed to the pair rules have only comments / removed lines between them, and after a label or an inline assembly line, as at the start of a function, nothing is known but what the new first instruction loads; the belief `N/Z describe X / Y` is kept only through instructions that leave it true (U-opt xfer-flags-x / -y).",
+        note="Partial: whole-program equivalence of -O1 and -O0 is not decided: the Dummy writes and the advance of `first` / `second` after a rule fired, the multipeek look-ahead (modelled as arbitrary lines), the JMP-to-next-label rule, and whether a removed flag-setting load is invisible in context are outside the blocks under contract (the knowledge resets at labels / inline assembly and the initial knowledge are block D and the head, U-optloop). ISA write sets and the list of sound eliminations are the oracle (A-isa). A-noalias, A-immtext. -O2/-O3 are identical to -O1 in this library.",
         technique="contract-based deductive verification (Verus, code blocks extracted mechanically from /repo by anchors, free variables turned into parameters)",
         design="DESIGN.md section 5, C02"),
 })
@@ -105,16 +105,16 @@ CLAIMED.update({
 
 CLAIMED.update({
     "C07": dict(
-        text="Deductive proof (Verus) on the conditional-compilation state machine of cpp::process, cut per directive from the real text: with the abstraction 'one frame (branch-selected-already, this-branch-selected) per open group', every state/stack update of #ifdef #ifndef #if #elif #else #endif implements the reference semantics of the property (first branch whose condition holds, #else when none did, groups inside unselected text inert), the state is Active exactly when every enclosing branch is the selected one, #endif without #if is an error, and the guards of #define #undef #include #error and of ordinary lines are proved equal to 'Active'.",
-        note="Partial: the #if expression evaluator (evaluate/eval_eq/…: string slicing) and the recognition of directives (starts_with, splitn) are not under contract; the conditions' truth values are parameters. Well-nestedness is the property's premise.",
+        text="Deductive proof (Verus) on the conditional-compilation state machine of cpp::process, cut per directive from the real text: with the abstraction 'one frame (branch-selected-already, this-branch-selected) per open group', every state/stack update of #ifdef #ifndef #if #elif #else #endif implements the reference semantics of the property (first branch whose condition holds, #else when none did, groups inside unselected text inert), the state is Active exactly when every enclosing branch is the selected one, #endif without #if is an error, and the guards of #define #undef #include #error and of ordinary lines are proved equal to 'Active'. The `#if` expression evaluator (U-ifexpr: eval_unary, eval_eq, evaluate whole) computes the C value of `! ! term` and `a == b == c`, rejects leftover text and passes an operand's error on.",
+        note="Partial: eval_term (a name's value) and the recognition of directives (starts_with, splitn) are not under contract; in the state-machine unit the conditions' truth values are parameters. Well-nestedness is the property's premise.",
         technique="contract-based deductive verification (Verus; refinement of a reference transition system by the statements extracted mechanically from /repo)",
         design="DESIGN.md section 5, C07"),
 })
 
 CLAIMED.update({
     "C08": dict(
-        text="Context::define and Context::define_ex whole (last_mut updates written as pop / push of the last chunk): the four chunked tables stay in step and every chunk's RegexSet is built from that chunk's current patterns (so a macro in any slot, including the last of a 100-entry chunk, is seen by replace_all's set), the macro is appended to the last chunk and a full chunk is followed by a fresh one.  Narrow, partial: Deductive proof (Verus) of the clause '#undef removes exactly the named macro' at the level the code allows: the real nested search loops of Context::undefine return the position (chunk, offset) of the first entry carrying the given name, or the table length when the name is absent, and the three parallel tables and the regex set of that chunk are updated at exactly that position (index expressions extracted verbatim).",
-        note="NOT decided (and the larger part of C08): whole-identifier matching, no expansion inside strings or longer identifiers, positional argument substitution, nested expansion, what RegexSet / Regex match (only which patterns they were built from is tracked), and the -D option. These are semantics of the regex crate (\\b, captures, replace_all) and of str::splitn, for which no specifications exist, the removals of undefine use IndexMut on Vec<Vec<_>> (only their index expressions are checked) and the flat map `defs` is a BTreeMap, outside Verus' subset (define / define_ex are verified with their last_mut() updates written as pop / push of the last chunk); Kani on String tables is intractable here (a 10-line block over a String-keyed table did not finish in 18 minutes).",
+        text="Context::define and Context::define_ex whole (last_mut updates written as pop / push of the last chunk): the four chunked tables stay in step and every chunk's RegexSet is built from that chunk's current patterns (so a macro in any slot, including the last of a 100-entry chunk, is seen by replace_all's set), the macro is appended to the last chunk and a full chunk is followed by a fresh one.  Narrow, partial: Deductive proof (Verus) of the clause '#undef removes exactly the named macro' at the level the code allows: the real nested search loops of Context::undefine return the position (chunk, offset) of the first entry carrying the given name, or the table length when the name is absent, and the three parallel tables and the regex set of that chunk are updated at exactly that position (index expressions extracted verbatim). The -D option (U-dashd): the loop body of compile() defines the text before the first `=` as the text after it (further `=` included), or as 1.",
+        note="NOT decided (and the larger part of C08): whole-identifier matching, no expansion inside strings or longer identifiers, positional argument substitution, nested expansion, and what RegexSet / Regex match (only which patterns they were built from is tracked). These are semantics of the regex crate (\\b, captures, replace_all) and of str::splitn, for which no specifications exist, the removals of undefine use IndexMut on Vec<Vec<_>> (only their index expressions are checked) and the flat map `defs` is a BTreeMap, outside Verus' subset (define / define_ex are verified with their last_mut() updates written as pop / push of the last chunk); Kani on String tables is intractable here (a 10-line block over a String-keyed table did not finish in 18 minutes).",
         technique="contract-based deductive verification (Verus loop invariants on the loops extracted mechanically from /repo)",
         design="DESIGN.md section 5, C08"),
 })
